@@ -67,6 +67,9 @@ def cases(draw):
             opts[it] = draw(st.sampled_from(['sub', 'a/b', 'x y']))
     return {'backend': backend, 'dirs': dirs, 'destdir': destdir,
             'dest_when': dest_when, 'items': sorted(items), 'opts': opts,
+            # the build files are regenerated from the saved configuration
+            # before anything is built or installed
+            'regen': draw(st.sampled_from([None, None, 'forced', 'touch'])),
             'prog_libs': draw(st.sampled_from([['sb'], ['sa', 'st'],
                                                ['sv', 'sb'], ['st'],
                                                ['sb', 'sv', 'st']]))}
@@ -247,6 +250,8 @@ def prop_install(rec):
             case['dest_when'] if case['destdir'] else 'none')}
         labs |= {'item:' + i for i in kinds}
         labs |= {'dir:' + k for k in case['dirs']}
+        if case.get('regen'):
+            labs.add('regenerated:' + case['regen'])
         rec.case(labs, nontrivial=(
             [sorted(kinds), sorted(case['opts'].items()),
              sorted(case['dirs']), case['destdir'], case['dest_when'],
@@ -284,6 +289,14 @@ def prop_install(rec):
             if r.rc != 0:
                 raise Violation('install/configure-failed',
                                 r.err.strip()[-700:], case)
+            if case.get('regen') == 'forced':
+                g = sandbox.run_bfg(['regenerate', bld], tmp, env)
+                if g.rc != 0:
+                    raise Violation('install/regenerate-failed',
+                                    g.err.strip()[-700:], case)
+            elif case.get('regen') == 'touch':
+                t = sandbox.Clock(tmp).tick(tmp)
+                os.utime(os.path.join(src, 'build.bfg'), ns=(t, t))
             b = sandbox.run_backend(case['backend'], bld, env, ['all'])
             if b.rc != 0:
                 raise HarnessError('build failed: ' + (b.err + b.out)[-600:])
